@@ -2,13 +2,173 @@
 which regenerated fact theorems are re-checked, which harness streams are run and how their
 answers are compared with the Lean model's."""
 
+TB_COMMON = ("Trusted: Lean 4.33 kernel; axioms propext, Classical.choice, Quot.sound only (audited per theorem on every "
+             "run); the hand-written models under /verif/lean/NR are tied to the Go by differential streams and by the "
+             "Spec oracle evaluated on the real code's own observations, not verified against it; the Go harness and "
+             "its independent JSON-to-instance decoder; float64 rounding is outside the model (integer-valued instances "
+             "make engine arithmetic exact; time-dependent travel compared with relative tolerance 1e-8).")
+
+SOL = {"name": "sol", "corpus": True, "timeout": 3000}
+HIST = {"name": "hist", "corpus": True}
+HISTUC = {"name": "histuc", "corpus": True}
+
+ENGINE_TXT = ("Engine theorems (NR.Props.EngineThms, generic in the cached values, the step function and the exact "
+              "checks): a completing propagation pass establishes cache = forward propagation and every check on what "
+              "it walked; every operation (insert / remove / vehicle un-plan = replace a route suffix, propagate, roll "
+              "back on violation) preserves the solution invariant over arbitrary histories and any number of "
+              "vehicles; a rejected operation leaves routes, cached values of all planned stops and the score unchanged. ")
+
 PROPS = {
+    "C01": {
+        "claim": {
+            "text": ENGINE_TXT + "C01: projection to the exact checks (capacity levels, distance) for every reachable "
+                    "state; maximum stops and compatibility have no exact check (regenerated fact) and are proved from "
+                    "the estimate gate (exact estimate formulas) + closure under removals. No-mix is NOT proved "
+                    "(partial): it is decided by the Spec oracle. The oracle NR.Spec.staticOK, computed from the "
+                    "input-derived instance alone, judges every solution delivered by the solver and every state of "
+                    "random API histories.",
+            "note": TB_COMMON + " Translation of JSON quantities/capacities/limits into expressions is tied (oracle uses "
+                    "its own decoder), not proved.",
+            "technique": "Lean 4 proof (invariant by induction over operation histories) + Spec oracle on the real code's observations",
+            "design_ref": "DESIGN.md §5 C01, §3.6",
+        },
+        "lean_props": ["C01", "EngineThms"],
+        "streams": [SOL, HIST],
+    },
+    "C02": {
+        "claim": {
+            "text": ENGINE_TXT + "C02: the temporal checks (window close, vehicle end / max duration, stop and vehicle "
+                    "wait limits) are exact checks run by every pass, un-planning included, so they hold on every "
+                    "reachable state with NO assumption on the travel matrix; an infeasible removal is rolled back. "
+                    "Oracle NR.Spec.temporalOK recomputes every schedule from the input (matrix and time-dependent "
+                    "travel via the C17 model) and judges every observation of the real code.",
+            "note": TB_COMMON + " API models that claim the triangle inequality skip the latest-start exact check; "
+                    "JSON-built models never set it (that is what is claimed).",
+            "technique": "Lean 4 proof (engine invariant, AllOk clause) + Spec oracle on the real code's observations",
+            "design_ref": "DESIGN.md §5 C02",
+        },
+        "lean_props": ["C02", "EngineThms"],
+        "streams": [SOL, HIST],
+    },
+    "C03": {
+        "claim": {
+            "text": "Theorems: routes stay duplicate-free and pairwise disjoint over any admissible history; every "
+                    "placement the move generator yields keeps direct pairs adjacent (complete characterisation of "
+                    "`generate`); on the sub-alphabet of root operations a plan-all unit is never half planned. The "
+                    "full statement is FALSE of the code: machine-checked counterexample for un-planning a member "
+                    "(finding E2, replayed on the real code; not repairable without editing goldens). The single-stop "
+                    "search path had no direct-pair guard (E3: repaired). Oracle NR.Spec.unitsOK judges every observation.",
+            "note": TB_COMMON + " The DAG order test IsAllowed and the sequence sampler are tied by the harness's own "
+                    "permutation oracle, not modelled in Lean.",
+            "technique": "Lean 4 proof (partial + counterexample theorems) + Spec oracle on the real code's observations",
+            "design_ref": "DESIGN.md §5 C03",
+        },
+        "lean_props": ["C03", "C08", "C10", "EngineThms"],
+        "streams": [SOL, HIST],
+    },
+    "C04": {
+        "claim": {
+            "text": ENGINE_TXT + "C04: cached value of every planned stop = forward propagation of the current route "
+                    "(history independence is a corollary: the observable solution is a function of the routes). "
+                    "That the propagation step IS the input's semantics is the tie: NR.Spec.schedule, computed from the "
+                    "harness's own decoding of the JSON (matrix in force at departure via the C17 model, waiting, "
+                    "duration x the serving vehicle's multiplier, duration-group surcharge), is compared with the "
+                    "code's reported travel/arrival/start/end/cumulative travel on every observation. Found and "
+                    "repaired: compounding multipliers (E1), wrong matrix rows for vehicles without alternates (E14).",
+            "note": TB_COMMON,
+            "technique": "Lean 4 proof (cache consistency invariant over histories) + independent schedule oracle on the real code's observations",
+            "design_ref": "DESIGN.md §5 C04",
+        },
+        "lean_props": ["C04", "EngineThms"],
+        "streams": [SOL, HIST],
+    },
+    "C05": {
+        "claim": {
+            "text": ENGINE_TXT + "C05: score = objective of the current routes after any history (refreshed by every "
+                    "completing pass from consistent caches). The unplanned term follows the unplanned COLLECTION: "
+                    "proved right on the sub-alphabet where the bookkeeping invariant holds (C08), FALSE in general "
+                    "(counterexample theorems; findings E4 one-of parents, E2 member un-plan, stale score after a "
+                    "rejected member un-plan). NR.Spec.objective recomputes all eight terms from routes and input and "
+                    "is compared with the code's terms and total on every observation.",
+            "note": TB_COMMON + " The lateness default factor 1.0 and the target-time expression shared by earliness and "
+                    "lateness are mirrored in the oracle as the code defines them.",
+            "technique": "Lean 4 proof (partial + counterexample) + independent objective oracle on the real code's observations",
+            "design_ref": "DESIGN.md §5 C05",
+        },
+        "lean_props": ["C05", "C08", "EngineThms"],
+        "streams": [SOL, HIST],
+    },
+    "C06": {
+        "claim": {
+            "text": "Pure list theorems over score sequences: for EVERY list of scores received by the aggregator (hence "
+                    "every merge of the runs' outputs, every goroutine schedule) the delivered scores are strictly "
+                    "decreasing, all below the first, the first is the minimum of the start solutions, the last is the "
+                    "minimum of everything received; single solver: strictly decreasing for any operator/reset "
+                    "sequence, last delivered = best found exactly when no operator resets to a strictly better "
+                    "solution (counterexample otherwise). The comparison operators are extracted from the source on "
+                    "every run and the theorems are re-proved for them.",
+            "note": TB_COMMON + " The aggregator's receive order is observed through the verif hook agg_score.",
+            "technique": "Lean 4 proof (list induction) over facts regenerated from the source + trace correspondence",
+            "design_ref": "DESIGN.md §5 C06",
+        },
+        "lean_props": ["C06"],
+        "facts": ["SolverFacts"],
+        "streams": [SOL],
+    },
+    "C07": {
+        "claim": {
+            "text": ENGINE_TXT + "C07: all-or-nothing for stops-units for ARBITRARY exact checks; the rollback pass "
+                    "always completes. Units of units (bookkeeping state machine NR.Coll): rejected operations of the "
+                    "sub-alphabet leave the collections unchanged as sets; the general statement is FALSE: "
+                    "counterexample theorem for solutionPlanUnitsUnitImpl.UnPlan (continues after a rejected member, "
+                    "returns true). Decided on the real code by snapshot comparison before/after every rejected call "
+                    "in random histories, with and without an optimistic user constraint (rollback branches run "
+                    "thousands of times). Repaired: SolutionVehicle.Unplan reported success after restoring.",
+            "note": TB_COMMON + " Order inside collections and inside an unplanned unit's stop list is not part of "
+                    "'exactly as they were' (canonicalised).",
+            "technique": "Lean 4 proof (rollback theorem, partial + counterexample) + before/after snapshot differential on the real code",
+            "design_ref": "DESIGN.md §5 C07",
+        },
+        "lean_props": ["C07", "C08", "EngineThms"],
+        "streams": [HIST, HISTUC],
+    },
+    "C08": {
+        "claim": {
+            "text": "Bookkeeping state machine NR.Coll (every add/remove at the call site the Go has it; outcomes of "
+                    "feasibility checks are arbitrary input bits): invariant proved for all unit forests and all "
+                    "histories over the sub-alphabet of root operations; full statement FALSE: counterexample theorems "
+                    "for one-of units (E4, pinned by the alternates golden) and member un-plan (E2). Repaired: vehicle "
+                    "un-plan filed members on their own (E15). Oracle NR.Spec.bookkeepingOK judges the collections of "
+                    "the real solution after every operation and on every delivered solution.",
+            "note": TB_COMMON,
+            "technique": "Lean 4 proof (state-machine invariant, partial + counterexample theorems) + Spec oracle on the real code's observations",
+            "design_ref": "DESIGN.md §5 C08",
+        },
+        "lean_props": ["C08"],
+        "streams": [SOL, HIST],
+    },
+    "C10": {
+        "claim": {
+            "text": "Theorems: combineAscending enumerates exactly the order-preserving placements, once each; generate "
+                    "enumerates exactly those that split no direct pair, once each, and equals combineAscending without "
+                    "direct pairs; folding takeBestInPlace over any candidate list returns an executable candidate iff "
+                    "one exists and its value is the minimum over the executable ones, for ANY tie-break stream. Tie: "
+                    "BestMove vs the minimum over NewMoveStops on every enumerated placement (the property's oracle) "
+                    "for every stops-unit of up to 3 stops in random histories. The DAG-constrained order sampler is "
+                    "tied by that oracle, not modelled (partial).",
+            "note": TB_COMMON + " Scope: plan units made of stops; units of units are searched greedily by construction.",
+            "technique": "Lean 4 proof (enumeration completeness, min-fold) + exhaustive-enumeration differential on the real code",
+            "design_ref": "DESIGN.md §5 C10",
+        },
+        "lean_props": ["C10"],
+        "streams": [HIST],
+    },
     "C17": {
         "claim": {
             "text": "Lean 4 theorems over every rational departure time, every chain SetExpression can build and every "
                     "non-negative duration table: ValueAtValue is total, non-negative, first-in-first-out, equals the "
                     "element's duration for a trip that fits inside one element, equals the default after the last "
-                    "frame / without frames; SetExpression (as repaired) only accepts intervals that keep the chain "
+                    "frame / without frames; SetExpression (as repaired, E10) only accepts intervals that keep the chain "
                     "sorted, contiguous and alternating. The model is tied to the Go by a differential stream "
                     "(API and JSON routes, dense grids and every frame boundary) replayed through the compiled model.",
             "note": "Trusted: Lean kernel; axioms propext, Classical.choice, Quot.sound; the hand-written model "
@@ -22,6 +182,38 @@ PROPS = {
                     "with relative tolerance 1e-9, property clauses on the code's values with 1e-6"],
         "assumptions": ["frames of zero length are excluded (factory/validate.go rejects them)",
                         "expressions are constants per (vehicle type, from, to); the theorems fix one triple"],
+    },
+    "C18": {
+        "claim": {
+            "text": ENGINE_TXT + "C18: any probe sequence (execute a best move, un-plan it again, ...) that ends with "
+                    "the routes it started from leaves the observable solution exactly as it was; a rejected probe "
+                    "changes nothing. The hypothesis is exact: when the un-plan of a probed group member is rejected the "
+                    "check leaves the group half planned (finding E16, counterexample theorem, replayed on the real "
+                    "code). Decided on the real code by snapshot comparison before/after check.SolutionCheck at every "
+                    "verbosity inside random histories, and by re-planning every stops-unit the check reports plannable.",
+            "note": TB_COMMON + " 'Reports truthfully' is re-checked only for plan units of stops (units of units are "
+                    "searched greedily in a random member order, a second search may legitimately fail).",
+            "technique": "Lean 4 proof (history independence corollary) + before/after snapshot differential on the real code",
+            "design_ref": "DESIGN.md §5 C18",
+        },
+        "lean_props": ["C18", "C07", "EngineThms"],
+        "streams": [HIST],
+    },
+    "C19": {
+        "claim": {
+            "text": ENGINE_TXT + "C19: instantiate the exact check with 'built-in checks AND an arbitrary user predicate "
+                    "of the route prefix' — the estimate does not occur in the statements, so it cannot matter: no "
+                    "reachable solution violates the user predicate, and a rejection leaves the solution unchanged. "
+                    "Tie: generated stop-, vehicle- and solution-level predicates (temporal or not) whose estimate always "
+                    "answers 'not violated' are attached to generated models; the predicate is re-evaluated by the "
+                    "harness on the solution after every operation. Inherits C07's findings for units of units.",
+            "note": TB_COMMON + " Solution-level predicates are covered by the differential only (the engine model has "
+                    "stop- and vehicle-level checks).",
+            "technique": "Lean 4 proof (engine invariant with an arbitrary check) + user-predicate differential on the real code",
+            "design_ref": "DESIGN.md §5 C19",
+        },
+        "lean_props": ["C19", "EngineThms"],
+        "streams": [HISTUC],
     },
 }
 
